@@ -37,7 +37,7 @@ def lane(i, scratch, queue, lock, results, tier):
                 break
             d = queue.pop(0)
         meta = json.load(open(os.path.join(VERIF, "seeded", d, "meta.json")))
-        prop = meta["property"]
+        prop = meta.get("detected_by", [meta["property"]])[0]
         rc, out = sh(["git", "-C", wt, "apply", os.path.join(VERIF, "seeded", d, "patch.diff")])
         if rc != 0:
             res = "patch-does-not-apply"
